@@ -84,6 +84,13 @@ theorem toDoneActionP {N : IState → Prop} {A : Action → IState → Prop} {e 
   | ok h => exact .action (hA _ _ h)
   | halt h => exact .halt h
 
+theorem toDoneActionQ {N : IState → Prop} {A QA : Action → IState → Prop} {e : Exec Action}
+    (hA : ∀ a s', QA a s' → A a s') (h : Exec.Sat e (Halt s0) (fun a s' => QA a s')) :
+    DoneGoodP (Halt s0) N A e.toDoneAction := by
+  cases h with
+  | ok h => exact .action (hA _ _ h)
+  | halt h => exact .halt h
+
 theorem toDoneAction_good (hs : Start s0) {e : Exec Action}
     (h : Exec.Sat e (Halt s0) (fun a s' => ActRel s0 a s')) : DoneGood s0 e.toDoneAction :=
   toDoneActionP (fun _ _ hq => ActRel.ok hs hq) h
